@@ -22,6 +22,10 @@ R18.6  the loops marking blocked cores / GPUs DOWN range over the complete
 R18.7  an RM which decides membership of node-file entries by their slot
        count does not hand `cpn` to _parse_nodefile (cpn overrides the count
        of every host: the test could not tell pseudo nodes from compute nodes)
+R18.8  the RMInfo attributes which size the node entries (read by
+       _get_node_list, or put into the node tuples handed to it) are final
+       when the entries are built: no store to them can follow on a path of
+       init_from_scratch; _init_from_scratch only adjusts them afterwards
 """
 
 import ast
@@ -2023,6 +2027,331 @@ def _may_be_true(prog, pv, f, e, at, depth=0):
 
 
 # ------------------------------------------------------------------------------
+# R18.8  the RMInfo values which size the node entries are final when the
+#        entries are built (definition must reach the use)
+#
+# calls which hand their argument's value on (the value ends up in the result)
+CARRY_CALLS = {'list', 'tuple', 'sorted', 'reversed', 'int', 'float', 'abs',
+               'round', 'max', 'min'}
+SEQ_ADD     = {'append', 'extend', 'insert', 'add'}
+
+
+def _info_attr(expr, var):
+    """X of <var>.X, <var>['X'], <var>.get('X')"""
+    if isinstance(expr, ast.Attribute) and isinstance(expr.value, ast.Name) \
+            and expr.value.id == var:
+        return expr.attr
+    if isinstance(expr, ast.Subscript) and isinstance(expr.value, ast.Name) \
+            and expr.value.id == var and \
+            isinstance(expr.slice, ast.Constant) and \
+            isinstance(expr.slice.value, str):
+        return expr.slice.value
+    if isinstance(expr, ast.Call) and call_name(expr) == var + '.get' and \
+            expr.args and isinstance(expr.args[0], ast.Constant) and \
+            isinstance(expr.args[0].value, str):
+        return expr.args[0].value
+    return None
+
+
+def _info_reads(node, var):
+    """{X} of the reads of <var>.X below node (store targets excluded)"""
+    out = set()
+    for n in walk(node):
+        if isinstance(n, (ast.Attribute, ast.Subscript)) and \
+                not isinstance(n.ctx, ast.Load):
+            continue
+        x = _info_attr(n, var)
+        if x is not None:
+            out.add(x)
+    return out
+
+
+def _handed_to(prog, f, K, var, skip=()):
+    """[(call, callee, parameter)] for the calls of f which hand the plain
+    name `var` to a method / function that resolves"""
+    out = []
+    for c in calls_in(f.node):
+        if not any(isinstance(a, ast.Name) and a.id == var
+                   for a in list(c.args) + [k.value for k in c.keywords]):
+            continue
+        callee = prog.resolve_call(f, c, K)
+        if callee is None or callee is f or callee in skip:
+            continue
+        for p, v in bind_args(callee, c).items():
+            if isinstance(v, ast.Name) and v.id == var:
+                out.append((c, callee, p))
+    return out
+
+
+def builder_reads(prog, f, K, var, depth=0, _seen=None):
+    """{X}: attributes of the RMInfo parameter `var` which f reads (also in
+    the helpers it hands the RMInfo to)"""
+    _seen = set() if _seen is None else _seen
+    if (f.where, var) in _seen or depth > 3:
+        return set()
+    _seen.add((f.where, var))
+    out = _info_reads(f.node, var)
+    for c, callee, p in _handed_to(prog, f, K, var):
+        out |= builder_reads(prog, callee, K, p, depth + 1, _seen)
+    return out
+
+
+def info_stores(prog, f, K, var, skip=(), depth=0, _seen=None):
+    """[(X, ast node of f, overwrite, text)]: stores to <var>.X in f, directly
+    or in a helper f hands `var` to (then the node is the call).  `overwrite`
+    is False for a store whose new value is computed from the old one
+    (`x.X -= n`)"""
+    _seen = set() if _seen is None else _seen
+    if (f.where, var) in _seen or depth > 3:
+        return []
+    _seen.add((f.where, var))
+    out = []
+    for kind, target, stmt in I.stores(f.node):
+        x = _info_attr(target, var)
+        if x is None or kind == 'mutate':
+            continue
+        v = getattr(stmt, 'value', None)
+        over = kind == 'del' or kind == 'assign' and (
+            v is None or x not in _info_reads(v, var))
+        out.append((x, stmt, over, short(stmt, 60)))
+    for c, callee, p in _handed_to(prog, f, K, var, skip):
+        if callee.name == 'init_from_scratch':
+            continue
+        for x, _, over, text in info_stores(prog, callee, K, p, skip,
+                                            depth + 1, _seen):
+            out.append((x, c, over, '%s in %s' % (text, callee.qual)))
+    return out
+
+
+def _carried(expr, var, names, reads):
+    """collect what the value of expr is made of: plain names -> `names`,
+    reads of <var>.X -> `reads`.  Followed through containers, arithmetic,
+    conditional expressions, comprehension elements and value-preserving
+    calls - not through the arguments of other calls (their meaning is not
+    known: `cpn=0` means "count the slots")"""
+    if expr is None:
+        return
+    x = _info_attr(expr, var)
+    if x is not None:
+        reads.add(x)
+    elif isinstance(expr, ast.Name):
+        names.add(expr.id)
+    elif isinstance(expr, (ast.Tuple, ast.List, ast.Set)):
+        for e in expr.elts:
+            _carried(e, var, names, reads)
+    elif isinstance(expr, ast.Starred):
+        _carried(expr.value, var, names, reads)
+    elif isinstance(expr, ast.BinOp):
+        _carried(expr.left, var, names, reads)
+        _carried(expr.right, var, names, reads)
+    elif isinstance(expr, ast.BoolOp):
+        for e in expr.values:
+            _carried(e, var, names, reads)
+    elif isinstance(expr, ast.IfExp):
+        _carried(expr.body, var, names, reads)
+        _carried(expr.orelse, var, names, reads)
+    elif isinstance(expr, (ast.ListComp, ast.SetComp, ast.GeneratorExp)):
+        _carried(expr.elt, var, names, reads)
+    elif isinstance(expr, ast.Subscript):
+        _carried(expr.value, var, names, reads)
+    elif isinstance(expr, ast.Call) and call_name(expr) in CARRY_CALLS:
+        for e in expr.args:
+            _carried(e, var, names, reads)
+
+
+def embedded_reads(f, var, arg):
+    """[(stmt, {X})]: statements of f which put the value of <var>.X into the
+    object handed to the builder as `arg` (flow-insensitive closure over the
+    local names the object is made of)"""
+    names, reads = set(), set()
+    _carried(arg, var, names, reads)
+    out = []
+    if reads:
+        out.append((arg, set(reads)))
+    done = set()
+    while names - done:
+        nm = sorted(names - done)[0]
+        done.add(nm)
+        for n in walk(f.node):
+            rd = set()
+            if isinstance(n, ast.Assign) and \
+                    any(isinstance(e, ast.Name) and e.id == nm
+                        for t in n.targets for e in I._flat(t)):
+                if all(isinstance(t, ast.Name) for t in n.targets):
+                    _carried(n.value, var, names, rd)
+                elif isinstance(n.value, (ast.Tuple, ast.List)) and \
+                        len(n.targets) == 1 and \
+                        isinstance(n.targets[0], (ast.Tuple, ast.List)) and \
+                        len(n.targets[0].elts) == len(n.value.elts):
+                    for t, v in zip(n.targets[0].elts, n.value.elts):
+                        if isinstance(t, ast.Name) and t.id == nm:
+                            _carried(v, var, names, rd)
+            elif isinstance(n, ast.AugAssign) and \
+                    isinstance(n.target, ast.Name) and n.target.id == nm:
+                _carried(n.value, var, names, rd)
+            elif isinstance(n, ast.Call) and \
+                    isinstance(n.func, ast.Attribute) and \
+                    n.func.attr in SEQ_ADD and \
+                    isinstance(n.func.value, ast.Name) and \
+                    n.func.value.id == nm:
+                for e in n.args:
+                    _carried(e, var, names, rd)
+            if rd:
+                out.append((n, rd))
+    return out
+
+
+def _stale_after(g, smap, site, attrs, stores):
+    """stores to one of `attrs` which can run after `site` (a cfg node) on a
+    path which then reaches the exit without running `site` again"""
+    after = set()
+    for e in g.succ[site.id]:
+        if e.label != 'exc':                 # site raised: nothing was built
+            after |= g.reachable(e.dst)
+    out = []
+    for x, node, over, text in stores:
+        t = smap.get(id(node))
+        if x not in attrs or t is None or t.id == site.id or \
+                t.id not in after:
+            continue
+        if g.exit.id in g.reachable(t.id, skip_nodes={site.id}):
+            out.append((x, node, over, text))
+    return out
+
+
+def r18_8(prog, rep, table, rid='R18.8'):
+    rep.rule(rid, 'the RMInfo attributes which size the node entries '
+             '(read by _get_node_list, or put into the node tuples it is '
+             'given) are not stored again after the entries were built: in '
+             'init_from_scratch of every RM of the table, and - other than '
+             'by an adjustment of the old value - in _init_from_scratch '
+             'after the RM returned', minimum=14)
+    base = prog.cls(*RM)
+    done = {}
+    sizing = set()
+
+    def analyse(K, f):
+        """-> {X} the attributes f builds node entries from; reports"""
+        key = (K.where, f.where)
+        if key in done:
+            return done[key]
+        done[key] = set()
+        params = [p for p in f.params if p != 'self']
+        if not params:
+            raise AnalysisError('UNRECOGNISED-IDIOM %s: no rm_info parameter'
+                                % f.where)
+        var = params[0]
+        g = cfg_of(f)
+        smap = I.stmt_node_map(g)
+        sites = []                           # (cfg node, {X}, text)
+        builders = set()
+        for c in calls_in(f.node):
+            n = smap.get(id(c))
+            if n is None:
+                continue
+            if call_name(c) == 'self._get_node_list':
+                callee = prog.resolve_call(f, c, K)
+                if callee is None:
+                    raise AnalysisError('%s: self._get_node_list does not '
+                                        'resolve for %s' % (f.where, K.name))
+                builders.add(callee)
+                b = bind_args(callee, c)
+                bp = [p for p, v in b.items()
+                      if isinstance(v, ast.Name) and v.id == var]
+                if not bp:
+                    continue                 # foreign RMInfo: R18.1 reports
+                reads = set()
+                for p in bp:
+                    reads |= builder_reads(prog, callee, K, p)
+                sites.append((n, reads, 'built by %s' % short(c, 50)))
+                others = [v for p, v in b.items() if p not in bp]
+                for a in others:
+                    for stmt, rd in embedded_reads(f, var, a):
+                        m = smap.get(id(stmt))
+                        if m is not None:
+                            sites.append((m, rd, 'put into the node tuples '
+                                          'by `%s`' % short(stmt, 50)))
+            elif call_name(c) == 'super().' + f.name:
+                callee = prog.resolve_call(f, c, K)
+                if callee is None or callee.cls is base:
+                    continue
+                a0 = c.args[0] if c.args else kwarg(c, var)
+                if isinstance(a0, ast.Name) and a0.id == var:
+                    sites.append((n, analyse(K, callee), 'built by %s'
+                                  % short(c, 50)))
+        stores = info_stores(prog, f, K, var, skip=builders)
+        attrs = set()
+        for n, reads, text in sites:
+            attrs |= reads
+            late = _stale_after(g, smap, n, reads, stores)
+            for x, node, over, stext in late:
+                rep.bad(rid, f, '%s:%s stored after use' % (K.name, x),
+                        '%s.%s stores rm_info.%s (`%s`) after the node '
+                        'entries were %s, which read rm_info.%s at that '
+                        'moment: every entry of rm_info.node_list keeps the '
+                        'size of the old value while RMInfo.%s announces the '
+                        'new one - the pilot offers nodes which do not have '
+                        'the configured / detected number of cores or GPUs'
+                        % (K.name, f.name, x, stext, text, x, x),
+                        f.loc(node),
+                        history='%s with %s not set in the resource config '
+                        '(0) and announced by the batch environment (e.g. '
+                        '$SLURM_GPUS_ON_NODE=4): RMInfo.%s == 4 but every '
+                        'node entry was sized with 0 (`gpus == []`): no GPU '
+                        'task is ever placed; with blocked_gpus configured '
+                        'the assert in _init_from_scratch kills the agent'
+                        % (K.name, x, x))
+            if not late:
+                rep.ok(rid, f, '%s: nothing stores rm_info.%s after the '
+                       'entries were %s' % (K.name, '/'.join(sorted(reads))
+                                            or '-', text), f.loc(n.ast))
+        done[key] = attrs
+        return attrs
+
+    for name, K in sorted(table.items()):
+        f = prog.find_method(K, 'init_from_scratch')
+        if f is None or f.cls is base:
+            continue                         # R18.1 reports
+        sizing |= analyse(K, f)
+    if not sizing:
+        raise AnalysisError('%s: no resource manager builds node entries '
+                            'from its RMInfo' % rid)
+    # base class: after the RM returned, only adjustments of the old value
+    s = prog.method(RM[0], RM[1], '_init_from_scratch')
+    g = cfg_of(s)
+    smap = I.stmt_node_map(g)
+    var, _ = scratch_contexts(prog, rep)
+    deleg = [c for c in calls_in(s.node)
+             if call_name(c) == 'self.init_from_scratch' and
+             smap.get(id(c)) is not None]
+    if len(deleg) != 1:
+        raise AnalysisError('UNRECOGNISED-IDIOM %s: %d calls of '
+                            'self.init_from_scratch' % (s.where, len(deleg)))
+    site = smap[id(deleg[0])]
+    names = {var} | {a.id for a in deleg[0].args if isinstance(a, ast.Name)}
+    stores = []
+    for nm in sorted(names):
+        stores += [st for st in info_stores(prog, s, base, nm) if st[2]]
+    late = _stale_after(g, smap, site, sizing, stores)
+    for x, node, over, stext in late:
+        rep.bad(rid, s, '_init_from_scratch:%s overwritten' % x,
+                'ResourceManager._init_from_scratch overwrites rm_info.%s '
+                '(`%s`) after the resource manager built rm_info.node_list '
+                'from it (and possibly detected it): the node entries keep '
+                'the size of the value the RM saw, RMInfo.%s announces '
+                'another one' % (x, stext, x), s.loc(node),
+                history='Slurm pilot without %s in the config, '
+                '$SLURM_GPUS_ON_NODE=4 / $SLURM_CPUS_ON_NODE=8: the RM '
+                'builds entries with the detected size, then the config '
+                'value (0) is written over RMInfo.%s' % (x, x))
+    if not late:
+        rep.ok(rid, s, 'after self.init_from_scratch() returned, rm_info.%s '
+               'are only adjusted (old value - blocked), never overwritten'
+               % '/'.join(sorted(sizing)), s.loc(deleg[0]))
+    rep.stat('sizing_attrs', len(sizing))
+
+
+# ------------------------------------------------------------------------------
 #
 def run(prog, rep, tier):
     rep.decided = ('every resource manager of the factory table obtains '
@@ -2070,6 +2399,7 @@ def run(prog, rep, tier):
     r18_5(prog, rep, table)
     rep.attempt(r18_6, prog, rep)
     rep.attempt(r18_7, prog, rep, table)
+    rep.attempt(r18_8, prog, rep, table)
     if tier == 'thorough':
         # sweep: any other class in the package deriving from ResourceManager
         # (not in the table) obeys R18.1 as well
@@ -2158,6 +2488,50 @@ _PBS_PARSE = ("            nodes = self._parse_nodefile(os.environ['PBS_NODEFILE
               "                                         smt=rm_info.threads_per_core)\n")
 _COB_PARSE = "            nodes    = self._parse_nodefile(nodefile, rm_info.cores_per_node)\n"
 
+
+_SLURM = _RMD + 'slurm.py'
+_SL_CPN = ("        if not rm_info.cores_per_node:\n"
+           "            # $SLURM_CPUS_ON_NODE = Number of physical cores per node\n"
+           "            cpn_str = os.environ.get('SLURM_CPUS_ON_NODE')\n"
+           "            if cpn_str is None:\n"
+           "                raise RuntimeError('$SLURM_CPUS_ON_NODE not set')\n"
+           "            rm_info.cores_per_node = int(cpn_str)\n\n")
+_SL_GPU = ("        if not rm_info.gpus_per_node:\n"
+           "            if os.environ.get('SLURM_GPUS_ON_NODE'):\n"
+           "                rm_info.gpus_per_node = int(os.environ['SLURM_GPUS_ON_NODE'])\n"
+           "            else:\n"
+           "                # GPU IDs per node\n"
+           "                # - global context: SLURM_JOB_GPUS and SLURM_STEP_GPUS\n"
+           "                # - cgroup context: GPU_DEVICE_ORDINAL\n"
+           "                gpu_ids = os.environ.get('SLURM_JOB_GPUS')  or \\\n"
+           "                          os.environ.get('SLURM_STEP_GPUS') or \\\n"
+           "                          os.environ.get('GPU_DEVICE_ORDINAL')\n"
+           "                if gpu_ids:\n"
+           "                    rm_info.gpus_per_node = len(gpu_ids.split(','))\n\n")
+_SL_NODES = "        nodes = [(node, rm_info.cores_per_node) for node in node_names]\n\n"
+_SL_TAIL  = _SL_NODES + _GNL
+_SL_DEF   = "    def init_from_scratch(self, rm_info: RMInfo) -> RMInfo:\n\n        ru.write_json(rm_info, 'rm_info.json')\n"
+_SL_HELPER = ("    def _detect_gpus(self, info):\n\n"
+              "        if info.gpus_per_node:\n"
+              "            return\n"
+              "        if os.environ.get('SLURM_GPUS_ON_NODE'):\n"
+              "            info.gpus_per_node = int(os.environ['SLURM_GPUS_ON_NODE'])\n"
+              "            return\n"
+              "        gpu_ids = os.environ.get('SLURM_JOB_GPUS')  or \\\n"
+              "                  os.environ.get('SLURM_STEP_GPUS') or \\\n"
+              "                  os.environ.get('GPU_DEVICE_ORDINAL')\n"
+              "        if gpu_ids:\n"
+              "            info.gpus_per_node = len(gpu_ids.split(','))\n\n\n"
+              "    # --------------------------------------------------------------------------\n"
+              "    #\n")
+_B_GPN  = "        rm_info.gpus_per_node    = self._cfg.gpus_per_node\n"
+_B_LFS  = "        rm_info.lfs_per_node     = self._cfg.lfs_size_per_node\n"
+_B_CALL = "        rm_info = self.init_from_scratch(rm_info)\n"
+_B_DEC  = "            rm_info.gpus_per_node  -= len(blocked_gpus)\n"
+_FK_CPN = ("        if not rm_info.cores_per_node:\n"
+           "            rm_info.cores_per_node = detected_cores\n\n")
+_FK_NODES = ("        nodes   = [('localhost', rm_info.cores_per_node)\n"
+             "                   for _ in range(n_nodes)]\n")
 
 MUTATIONS = [
     dict(name='R18.1 Debug RM builds the list by hand, all indices 0', rules=('R18.1',), edits=[
@@ -2327,6 +2701,29 @@ MUTATIONS = [
         (_RMD + 'pbspro.py', _PBS_PARSE, _PBS_PARSE +
          "            # drop service entries which are listed with one slot\n"
          "            nodes = [n for n in nodes if n[1] > (rm_info.threads_per_core or 1)]\n")]),
+    dict(name='R18.8 seed C18-f: Slurm builds the node list before the GPUs per node are discovered', rules=('R18.8',), edits=[
+        (_SLURM, _SL_GPU + _SL_TAIL, _SL_TAIL + "\n" + _SL_GPU)]),
+    dict(name='R18.8 Slurm builds the list into a temporary before GPU discovery, stores it at the end', rules=('R18.8',), edits=[
+        (_SLURM, _SL_GPU + _SL_TAIL,
+         _SL_NODES + "        node_list = self._get_node_list(nodes, rm_info)\n\n" + _SL_GPU +
+         "        rm_info.node_list = node_list\n")]),
+    dict(name='R18.8 Slurm makes the node tuples before the cores per node are detected', rules=('R18.8',), edits=[
+        (_SLURM, _SL_CPN, _SL_NODES + _SL_CPN),
+        (_SLURM, _SL_TAIL, _GNL)]),
+    dict(name='R18.8 Slurm GPU discovery moved into a helper which is called after the list is built', rules=('R18.8',), edits=[
+        (_SLURM, "    def init_from_scratch(self, rm_info: RMInfo) -> RMInfo:\n", _SL_HELPER + "    def init_from_scratch(self, rm_info: RMInfo) -> RMInfo:\n"),
+        (_SLURM, _SL_GPU + _SL_TAIL, _SL_TAIL + "        self._detect_gpus(rm_info)\n")]),
+    dict(name='R18.8 Fork makes the node tuples (through a local) before the detected cores are stored', rules=('R18.8',), edits=[
+        (_RMD + 'fork.py', _FK_CPN, "        cpn = rm_info.cores_per_node\n" + _FK_CPN),
+        (_RMD + 'fork.py', _FK_NODES, "        nodes   = list()\n        for _ in range(n_nodes):\n            nodes.append(('localhost', cpn))\n")]),
+    dict(name='R18.8 CCM reads the GPU count from the environment after the list is built', rules=('R18.8',), edits=[
+        (_RMD + 'ccm.py', _GNL, _GNL + "\n        if not rm_info.gpus_per_node:\n            rm_info['gpus_per_node'] = int(os.environ.get('CCM_GPUS', 0))\n")]),
+    dict(name='R18.8 base class applies the configured GPU count after the RM detected it', rules=('R18.8',), edits=[
+        (_B, _B_GPN, ""),
+        (_B, _B_CALL, _B_CALL + _B_GPN)]),
+    dict(name='R18.8 base class applies the configured lfs size after the RM built the list', rules=('R18.8',), edits=[
+        (_B, _B_LFS, ""),
+        (_B, _B_CALL, _B_CALL + "        if self._cfg.lfs_size_per_node:\n    " + _B_LFS)]),
 ]
 
 SILENT = [
@@ -2445,4 +2842,32 @@ SILENT = [
     dict(name='Cobalt copies the parsed tuples in a comprehension', edits=[
         (_RMD + 'cobalt.py', _COB_PARSE, _COB_PARSE +
          "            nodes    = [(name, slots) for name, slots in nodes]\n")]),
+    dict(name='Slurm discovers the GPUs before the cores', edits=[
+        (_SLURM, _SL_CPN + _SL_GPU, _SL_GPU + _SL_CPN)]),
+    dict(name='Slurm makes the node tuples right after the core detection, builds the list at the end', edits=[
+        (_SLURM, _SL_GPU + _SL_TAIL, _SL_NODES + _SL_GPU + _GNL)]),
+    dict(name='Slurm node tuples by an append loop over a local for the core count', edits=[
+        (_SLURM, _SL_NODES, "        cpn   = rm_info.cores_per_node\n        nodes = list()\n        for name in node_names:\n            nodes.append((name, cpn))\n\n")]),
+    dict(name='Slurm GPU discovery in a helper which stores into the RMInfo, called before the list is built', edits=[
+        (_SLURM, "    def init_from_scratch(self, rm_info: RMInfo) -> RMInfo:\n", _SL_HELPER + "    def init_from_scratch(self, rm_info: RMInfo) -> RMInfo:\n"),
+        (_SLURM, _SL_GPU, "        self._detect_gpus(rm_info)\n\n")]),
+    dict(name='Slurm GPU discovery with a guard clause for the first variable and one store at the end', edits=[
+        (_SLURM, _SL_GPU,
+         "        n_gpus = rm_info.gpus_per_node\n"
+         "        if not n_gpus:\n"
+         "            gpu_ids = os.environ.get('SLURM_JOB_GPUS')  or \\\n"
+         "                      os.environ.get('SLURM_STEP_GPUS') or \\\n"
+         "                      os.environ.get('GPU_DEVICE_ORDINAL')\n"
+         "            if os.environ.get('SLURM_GPUS_ON_NODE'):\n"
+         "                n_gpus = int(os.environ['SLURM_GPUS_ON_NODE'])\n"
+         "            elif gpu_ids:\n"
+         "                n_gpus = len(gpu_ids.split(','))\n"
+         "            if n_gpus:\n"
+         "                rm_info.gpus_per_node = n_gpus\n\n")]),
+    dict(name='base class: defaults of lfs and GPUs in the other order, blocked GPUs subtracted in expanded form', edits=[
+        (_B, _B_GPN + _B_LFS, _B_LFS + _B_GPN),
+        (_B, _B_DEC, "            rm_info.gpus_per_node   = rm_info.gpus_per_node - len(blocked_gpus)\n")]),
+    dict(name='Torque detects the cores per node after the list is built (entries are sized by the node tuples)', edits=[
+        (_RMD + 'torque.py', "        if not rm_info.cores_per_node:\n            rm_info.cores_per_node = self._get_cores_per_node(nodes)\n\n" + _GNL,
+         _GNL + "\n        if not rm_info.cores_per_node:\n            rm_info.cores_per_node = self._get_cores_per_node(nodes)\n")]),
 ]
